@@ -165,6 +165,18 @@ def run(ctx: common.Ctx):
             ctx.violation(f"corearray-history/{kind}", f"history {' '.join(h)}: implementation {g}, model {w}",
                           {"history": h, "implementation": g, "model": w})
     ctx.extra["histories"] = nh
+    # histories with value-dependent shortcuts (`ndx.where` on boolean scalars, data or placeholder): the `guarded` step of
+    # Model/Heap.lean (simulation under neutrality: Lemmas/HeapSim.step_sim, Props/C01.refinement_partial)
+    hs = [heapcorr.gen_history_shortcuts(rng, rng.randint(5, 14)) for _ in range(nh)]
+    for h, w, g in zip(hs, common.model(heapcorr.model_lines(hs, True)), heapcorr.run_impl(hs)):
+        if g == "skip":
+            ctx.count("shortcut-history-skipped-equal-branches")
+            continue
+        ctx.case(("hist-shortcut", tuple(h)), any(s.startswith("gw") for s in h), {"history": h, "flags": g} if len(ctx.samples) < 5 else None)
+        ctx.count("shortcut-history-steps", len(h))
+        if w != g:
+            ctx.violation("corearray-history/shortcut-flags-differ", f"history {' '.join(h)}: implementation {g}, model {w}",
+                          {"history": h, "implementation": g, "model": w})
     # ---- (2) programs ------------------------------------------------------------------------------
     n = 300 if ctx.tier == "quick" else 3000
     recs = tables.pmap(worker, [(ctx.seed * 100003 + k, ctx.tier) for k in range(n)], chunk=4)
